@@ -14,13 +14,25 @@
 uint64_t nondet_vin_u64(void);
 /* every symbolic input is drawn here; the counterexample trace shows the successive values of vin_value__
    (no log array: a 2 KB global array was measured to multiply the formula size by 10) */
+#ifdef VIN_FIXED_LIST   /* concrete witness run: the inputs of a native run that passed every assumption */
+static const uint64_t VIN_FIXED[] = { VIN_FIXED_LIST, 0 }; static unsigned VIN_I;
+static inline uint64_t vin_u64(void){ return VIN_FIXED[VIN_I++]; }
+static inline uint8_t vin_u8(void){ return (uint8_t)vin_u64(); }
+static inline uint16_t vin_u16(void){ return (uint16_t)vin_u64(); }
+static inline uint32_t vin_u32(void){ return (uint32_t)vin_u64(); }
+#else
 static inline uint64_t vin_u64(void){ uint64_t vin_value__ = nondet_vin_u64(); return vin_value__; }
 /* exact-width draws: measured 10x smaller formulas than truncating a 64-bit nondet value */
 uint8_t nondet_vin_u8(void); uint16_t nondet_vin_u16(void); uint32_t nondet_vin_u32(void);
 static inline uint8_t vin_u8(void){ uint8_t vin_value__ = nondet_vin_u8(); return vin_value__; }
 static inline uint16_t vin_u16(void){ uint16_t vin_value__ = nondet_vin_u16(); return vin_value__; }
 static inline uint32_t vin_u32(void){ uint32_t vin_value__ = nondet_vin_u32(); return vin_value__; }
+#endif
+#ifdef WITNESS   /* the witness twin only decides reachability of the VWITNESS points */
+#define VASSERT(c, msg) ((void)0)
+#else
 #define VASSERT(c, msg) __CPROVER_assert((c), msg)
+#endif
 #define VASSUME(c) __CPROVER_assume(c)
 #define VOBS(x) ((void)0)
 #define VOBSB(p,n) ((void)0)
